@@ -26,7 +26,8 @@ ASSUMPTIONS = ['"secret" is matched as a lower-case substring of the resource na
                'visible-control expectations are dropped for a host that contains a resource whose repr raises (the whole section is then reported as failed inline)']
 REQUIRED_REACH = ['secret-resources-rendered', 'redaction-marker-seen:html', 'redaction-marker-seen:json', 'visible-control-seen:html',
                   'visible-control-seen:json', 'json-view-parsed', 'cookie-key-hosts', 'depth:2', 'name:prefix', 'name:infix', 'name:suffix',
-                  'value:bytes', 'value:rawbytes', 'value:number', 'value:nested', 'value:object-repr', 'value:bad-repr', 'inline-section-failure-seen', 'host-context-processor', 'route:render-arg-object']
+                  'value:bytes', 'value:rawbytes', 'value:number', 'value:nested', 'value:object-repr', 'value:bad-repr', 'inline-section-failure-seen', 'host-context-processor', 'route:render-arg-object',
+                  'fault-injected', 'same-meta-application-asked-through-two-applications']
 NSHARDS = 16
 SECRET_NAMES = {'prefix': ['secret_key', 'secret-token', 'secretX', 'secret_' + 'x' * 60],
                 'infix': ['db_secret_url', 'mysecrets', 'x_secret_y', 'very_long_configuration_option_name_secret_value_for_production'],
@@ -96,7 +97,59 @@ def gen_host(rng, n):
             'uses': [r['name'] for r in res if rng.chance(0.3) and re.match(r'^[A-Za-z_]\w*$', r['name'])],
             # a host ContextProcessor that copies some resources into every render context
             'ctxproc': ([r['name'] for r in res if rng.chance(0.5) and re.match(r'^[A-Za-z_]\w*$', r['name'])]
-                        if rng.chance(0.2) else [])}
+                        if rng.chance(0.2) else []),
+            # a system call one of the informational sections depends on fails while the page is computed
+            'fault': rng.pick(sorted(FAULTS)) if rng.chance(0.2) else None,
+            # depth 2: the application in the middle is also served on its own (same MetaApplication object) and asked first
+            'warm_inner': rng.chance(0.4)}
+
+
+FAULTS = {'os.getcwd': FileNotFoundError(2, 'No such file or directory'), 'os.times': OSError(5, 'Input/output error'),
+          'os.getpid': RuntimeError('no pid'), 'os.umask': PermissionError(1, 'Operation not permitted'),
+          'socket.gethostname': OSError(14, 'Bad address'), 'socket.getfqdn': UnicodeError('label empty or too long'),
+          'platform.uname': OSError(12, 'Cannot allocate memory'), 'platform.platform': KeyError('glibc'),
+          'resource.getrusage': OSError(22, 'Invalid argument'), 'resource.getrlimit': ValueError('invalid resource specified'),
+          'sys.getrecursionlimit': RuntimeError('unavailable')}
+
+
+def faulty_module(real, name, exc):
+    """stands in for a module imported by clastic.meta: a copy in which one function raises"""
+    import types
+    m = types.ModuleType(real.__name__)
+    m.__dict__.update(real.__dict__)
+    m.fired = 0
+
+    def failing(*a, **kw):
+        m.fired += 1
+        raise exc
+    if name in m.__dict__:
+        m.__dict__[name] = failing
+    return m
+
+
+class inject_fault(object):
+    def __init__(self, fault):
+        self.fault, self.proxy = fault, None
+
+    def __enter__(self):
+        if self.fault:
+            import clastic.meta as cm
+            modname, func = self.fault.split('.')
+            self.real = getattr(cm, modname, None)
+            if self.real is not None:
+                self.proxy = faulty_module(self.real, func, FAULTS[self.fault])
+                setattr(cm, modname, self.proxy)
+        return self
+
+    def __exit__(self, *exc):
+        if self.proxy is not None:
+            import clastic.meta as cm
+            setattr(cm, self.fault.split('.')[0], self.real)
+        return False
+
+    @property
+    def fired(self):
+        return self.proxy.fired if self.proxy is not None else 0
 
 
 def build_host(host):
@@ -200,6 +253,7 @@ def build_host(host):
         base = host['prefix'].rstrip('/')
     else:
         mid = Application([('/inner/', meta)])
+        _state['mid'] = mid
         routes.append((host['prefix'], mid))
         base = host['prefix'].rstrip('/') + '/inner'
     factory = None
@@ -210,6 +264,7 @@ def build_host(host):
     return app, base
 
 
+_state = {'mid': None}
 KNOWN_CTXPROC = 'host-context-processor-values-in-meta-json-view'
 
 
@@ -236,8 +291,17 @@ def forms_of(sentinel):
 
 
 def judge(sh, host, record=True):
+    with inject_fault(host.get('fault')) as fi:
+        _judge(sh, host, record, fi)
+    if fi.fired:
+        sh.hit('fault-injected')
+        sh.hit('fault:' + host['fault'])
+
+
+def _judge(sh, host, record, fi):
     case = {'host': host}
     try:
+        _state['mid'] = None
         app, base = build_host(host)
     except Exception as e:
         import traceback
@@ -264,6 +328,16 @@ def judge(sh, host, record=True):
             sh.hit('name:' + r['pos'])
         if r['kind'] != 'str':
             sh.hit('value:' + r['kind'])
+    if host['depth'] == 2 and host.get('warm_inner') and _state['mid'] is not None:
+        # the same MetaApplication object answers for the application in the middle first: that application has no
+        # resources, middlewares or routes of the host, and nothing of this answer may carry over
+        for path in ('/inner/', '/inner/json/'):
+            exw = probe.request(_state['mid'], 'GET', path)
+            if exw.exc is not None or exw.status != 200:
+                sh.violation('C18/status-%s' % exw.status, '[inner application on its own, %s] status %s %s %r'
+                             % (path, exw.status, probe.safe_repr(exw.exc)[:200] if exw.exc else '', exw.body[:200]), case)
+                return
+        sh.hit('same-meta-application-asked-through-two-applications')
     for view, path in (('html', base + '/'), ('json', base + '/json/')):
         ex = probe.request(app, 'GET', path, headers={'Accept': 'text/html'})
 
